@@ -403,7 +403,12 @@ fn get_slice_reference_sequence<'c>(
         // checksum is all-zero."
         if let Some(expected_md5) = slice_header.reference_md5() {
             let interval = context.alignment_start()..=context.alignment_end();
-            let subsequence = &sequence[interval];
+            let subsequence = sequence.get(interval).ok_or_else(|| {
+                io::Error::new(
+                    io::ErrorKind::InvalidData,
+                    "slice alignment range is out of bounds of the reference sequence",
+                )
+            })?;
             validate_sequence(subsequence, expected_md5)?;
         }
 
